@@ -12,6 +12,7 @@ def check(ctx):
     rep.floor("zone-name table obligations (T-ZONES)", nz, 2)
     # literals are printed by the Zinc scalar writers and read by the Zinc scalar readers: the literal-level rules of C01 apply
     from rules import escapes as _esc
+    _esc.check_quoted_interpolations(ctx, rep)
     ne1 = _esc.check_str(ctx, rep)
     ne2 = _esc.check_uri(ctx, rep)
     rep.floor("Str / Uri escape transducer obligations", ne1 + ne2, 13)
